@@ -141,7 +141,7 @@ def build_graph(rng, root):
     feats = set()
     npk = rng.choice((1, 2, 3, 3, 4, 6))
     subdir = rng.random() < 0.4
-    lua_path_mode = rng.choice(('default', 'default', 'arg_rel', 'arg_abs', 'env', 'arg_qdir'))
+    lua_path_mode = rng.choice(('default', 'default', 'arg_rel', 'arg_abs', 'env', 'arg_qdir', 'arg_and_env'))
     pkgs = []
     for i in range(npk):
         k = Pkg()
@@ -178,7 +178,7 @@ def build_graph(rng, root):
 
     def req_name(j, from_dir):
         t = pkgs[j]
-        if lua_path_mode in ('arg_rel', 'arg_abs', 'env', 'arg_qdir') and t.file_dir == 'lib':
+        if lua_path_mode in ('arg_rel', 'arg_abs', 'env', 'arg_qdir', 'arg_and_env') and t.file_dir == 'lib':
             return t.base.encode()      # found through the load path
         if t.file_dir == from_dir:
             return t.base.encode()
@@ -337,6 +337,10 @@ def build_graph(rng, root):
         argv += ['--lua-path', '?.lua;' + os.path.join(root, 'libs', '?.lua')]
     elif lua_path_mode == 'env':
         env['PICO8_LUA_PATH'] = '?;?.lua;' + os.path.join(root, 'libs', '?.lua')
+    elif lua_path_mode == 'arg_and_env':
+        # both given: the command line names the load path of this build (the variable points somewhere useless)
+        argv += ['--lua-path', '?.lua;' + os.path.join(root, 'libs', '?.lua')]
+        env['PICO8_LUA_PATH'] = os.path.join(root, 'nowhere', '?.lua') + ';never/?.lua'
     elif lua_path_mode == 'arg_qdir':
         # (relative patterns are taken relative to the requiring file, so packages that require each other need the absolute ones)
         argv += ['--lua-path', '?;?.lua;libs/?/?.lua;' + os.path.join(root, 'libs', '?', 'init.lua') + ';' + os.path.join(root, 'libs', '?', '?.lua')]
@@ -616,7 +620,7 @@ def gates(m, tier):
     missed = []
     for k in ('cycle', 'shared_dependency', 'gameloop_first', 'gameloop_middle', 'gameloop_last', 'gameloop_stripped', 'gameloop_kept',
               'use_game_loop_true', 'use_game_loop_false', 'package_no_final_newline', 'final_return', 'package_in_subdir',
-              'found_via_load_path', 'package_name_special_chars', 'lua_path:default', 'lua_path:arg_rel', 'lua_path:arg_abs', 'lua_path:env', 'nested_gameloop_function',
+              'found_via_load_path', 'package_name_special_chars', 'lua_path:default', 'lua_path:arg_rel', 'lua_path:arg_abs', 'lua_path:env', 'lua_path:arg_and_env', 'nested_gameloop_function',
               'require_form:stmt', 'require_form:assign', 'require_form:local', 'require_form:field', 'require_form:callarg',
               'require_form:chain', 'require_form:nestedfn', 'require_form:in_if', 'require_form:in_else', 'require_form:in_shortif',
               'require_form:in_loop', 'require_form:in_cond', 'error:missing', 'error:noargs', 'error:threeargs', 'error:nonstring',
